@@ -133,7 +133,7 @@ pub fn plan(id: &str) -> Option<Plan> {
         "C07" => Plan {
             id: "C07",
             level: "exploration",
-            profiles: vec![MKT, MKT_F],
+            profiles: vec![MKT, MKT_F, ADM],
             quick_runs: 1600,
             thorough_runs: 40_000,
             rule: "seeded runs of the market profile (fault-free and fault-injecting halves); one evaluation = one bankruptcy settlement (accepted or rejected) judged against the reference bankruptcy spec in its three insurance regimes, plus killed-state permanence checked in every later state; distinct = regime x signer class x #depositors",
